@@ -186,6 +186,16 @@ static void other_root(Mpz &out, mpz_srcptr v, const KeyCtx &K) {
 	mpz_set(out, v);
 }
 
+static bool is_square(mpz_srcptr a, const KeyCtx &K) { return mpz_jacobi(a, K.sec.p) == 1 && mpz_jacobi(a, K.sec.q) == 1; }
+static void a_root(Mpz &out, mpz_srcptr a, const KeyCtx &K) {
+	Mpz r2, r3, r4;
+	tmcg_mpz_sqrtmn_fast_all(out, r2, r3, r4, a, K.sec.p, K.sec.q, K.sec.m, K.sec.gcdext_up, K.sec.gcdext_vq, K.sec.pa1d4, K.sec.qa1d4);
+}
+// the n-byte string (most significant byte first) of an encoding with one byte altered; bit: which bit of the byte
+static void flip_byte(Mpz &out, mpz_srcptr y, size_t n, size_t pos, unsigned bit) {
+	Mpz d; mpz_set_ui(d, 1); mpz_mul_2exp(d, d, 8 * (n - 1 - pos) + bit);
+	if (mpz_tstbit(y, 8 * (n - 1 - pos) + bit)) mpz_sub(out, y, d); else mpz_add(out, y, d);
+}
 // the numeric part of the mutation catalogue; returns false when not applicable
 struct NumCtx { const KeyCtx *K; std::string foreign; };
 static bool mutate_num(std::string &text, const std::string &mu, const NumCtx &cx) {
@@ -344,11 +354,33 @@ static void run_verify(Out &out, const json &c, uint64_t seed) {
 	json se = sign_event(K, d, sig, idx, false); se["id"] = c["id"]; se["saltok"] = found; out.emit(se);
 	std::string text = sig, foreign;
 	if (mu == "foreign") { std::string fs = do_sign(O, d, sd + 7, idx); json fe = sign_event(O, d, fs, idx, false); out.emit(fe); foreign = sig_value(fs); }
-	bool applied = mutate_wire(text, f, mu, K, O, foreign) || mu == "none";
+	bool applied = false;
+	if (f == "enc") {
+		// the owner of the key presents a root of a square that differs from the encoding in one byte / above it
+		size_t n = K.mnsize(), pos = c["pos"];
+		for (int a = 0; a < 400 && !applied; a++) {
+			Mpz s, y, y2;
+			std::vector<std::string> w = fields(sig, '|');
+			parse62(s, w[2]); mpz_mul(y, s, s); mpz_mod(y, y, K.sec.m);
+			if (mu == "top") {
+				mpz_set_ui(y2, 1); mpz_mul_2exp(y2, y2, 8 * n); mpz_add(y2, y2, y);
+				if (mpz_cmp(y2, K.sec.m) < 0 && is_square(y2, K)) applied = true;
+			} else for (unsigned b = 0; b < 8 && !applied; b++) {
+				flip_byte(y2, y, n, pos, b);
+				if (mpz_cmp(y2, K.sec.m) < 0 && is_square(y2, K)) applied = true;
+			}
+			if (applied) { Mpz r; a_root(r, y2, K); text = w[0] + "|" + w[1] + "|" + b62(r) + "|"; }
+			else {      // another salt, another encoding
+				sig = do_sign(K, d, sd + 1000 + a, idx);
+				json se2 = sign_event(K, d, sig, idx, false); out.emit(se2);
+			}
+		}
+	} else applied = mutate_wire(text, f, mu, K, O, foreign) || mu == "none";
 	KeyCtx &V = (c["kv"] == "same") ? K : O;
 	std::string d2 = rel_of(d, c["rel"]);
 	json e; e["e"] = "Verify"; e["id"] = c["id"]; e["key"] = V.name; e["did"] = did(d2); e["applied"] = applied;
 	e["W"] = wire_proj(text, V.sec.m);
+	e["text"] = text; if (d2.size() <= 64) e["data"] = hexs((const unsigned char *)d2.data(), d2.size());
 	e["res"] = V.pub.verify(d2, text);
 	e["res2"] = V.sec.verify(d2, text);
 	out.emit(e);
@@ -358,7 +390,7 @@ static void run_decrypt(Out &out, const json &c, uint64_t seed) {
 	std::string mu = c["mu"], f = c["f"], rc = c["r"];
 	unsigned char pt[TMCG_SAEP_S0], dec[TMCG_SAEP_S0 + 8];
 	pt_of(pt, c["pt"], seed);
-	std::string text;
+	std::string text; bool encdone = false;
 	size_t bits = mpz_sizeinbase(K.sec.m, 2);
 	bool fits = (2 * TMCG_SAEP_S0 < bits / 16) && (2 * TMCG_SAEP_S0 < bits / 8 - 2 * TMCG_SAEP_S0) && (TMCG_SAEP_S0 < bits / 32);
 	if (c["fab"].get<bool>() || !fits) {
@@ -371,7 +403,8 @@ static void run_decrypt(Out &out, const json &c, uint64_t seed) {
 		size_t s2 = 2 * TMCG_SAEP_S0, s1 = bits / 8 - s2;
 		seam::seed(seed); seam::clear_script();
 		std::vector<unsigned char> r(s1, 0);
-		if (rc == "zero") seam::push_bytes(r);
+		if (rc == "rnd") { for (size_t i = 0; i < s1; i++) r[i] = seam::next64() & 0xff; seam::push_bytes(r); }
+		else if (rc == "zero") seam::push_bytes(r);
 		else if (rc == "ff") { std::fill(r.begin(), r.end(), 0xff); seam::push_bytes(r); }
 		else if (rc == "topzero") {        // the SAEP block gets a zero top byte: message byte = first mask byte
 			std::vector<unsigned char> g(s2);
@@ -390,16 +423,36 @@ static void run_decrypt(Out &out, const json &c, uint64_t seed) {
 		Mpz v; std::string vs = sig_value(text);
 		ee["inrange"] = parse62(v, vs) && mpz_sgn(v.v) >= 0 && mpz_cmp(v, K.sec.m) < 0;
 		out.emit(ee);
+		if (f == "enc") {
+			// the encryptor knows the SAEP block: the root of the ciphertext whose low-order bytes are the randomness
+			size_t n = s1 + s2, pos = c["pos"];
+			Mpz r1, r2, r3, r4, low, rr, x, x2;
+			tmcg_mpz_sqrtmn_fast_all(r1, r2, r3, r4, v, K.sec.p, K.sec.q, K.sec.m, K.sec.gcdext_up, K.sec.gcdext_vq, K.sec.pa1d4, K.sec.qa1d4);
+			mpz_import(rr, s1, 1, 1, 1, 0, r.data());
+			mpz_srcptr cand[4] = {r1, r2, r3, r4}; bool have = false;
+			for (int i = 0; i < 4; i++) { mpz_fdiv_r_2exp(low, cand[i], 8 * s1); if (mpz_cmp(low, rr) == 0 && mpz_sizeinbase(cand[i], 2) <= 8 * n) { mpz_set(x, cand[i]); have = true; } }
+			if (have) {
+				if (mu == "top") { mpz_set_ui(x2, 1); mpz_mul_2exp(x2, x2, 8 * n); mpz_add(x2, x2, x); }
+				else flip_byte(x2, x, n, pos, 0);
+				if (mpz_cmp(x2, K.sec.m) < 0) {
+					mpz_mul(x2, x2, x2); mpz_mod(x2, x2, K.sec.m);
+					std::vector<std::string> w = fields(text, '|');
+					text = w[0] + "|" + w[1] + "|" + b62(x2) + "|";
+					encdone = true;
+				}
+			}
+		}
 	}
 	std::string foreign;
 	if (mu == "foreign") {
 		size_t ob = mpz_sizeinbase(O.sec.m, 2);
 		if (ob >= 672) foreign = sig_value(O.pub.encrypt(pt)); else foreign = sig_value(do_sign(O, "x", seed, 0));
 	}
-	bool applied = mutate_wire(text, f, mu, K, O, foreign) || mu == "none";
+	bool applied = (f == "enc") ? encdone : (mutate_wire(text, f, mu, K, O, foreign) || mu == "none");
 	KeyCtx &V = (c["kv"] == "same") ? K : O;
 	json e; e["e"] = "Decrypt"; e["id"] = c["id"]; e["key"] = V.name; e["applied"] = applied;
 	e["W"] = wire_proj(text, V.sec.m);
+	e["text"] = text;
 	memset(dec, 0xAA, sizeof(dec));
 	bool res = V.sec.decrypt(dec, text);
 	e["res"] = res; e["out"] = res ? hexs(dec, TMCG_SAEP_S0) : std::string("");
